@@ -25,6 +25,7 @@ the nominal tolerance of the method (1e-6 resp. 1e-10).
 from __future__ import annotations
 
 import itertools
+import os
 import zlib
 
 import numpy as np
@@ -48,6 +49,10 @@ ASSUMPTIONS = [
     "documented support pins which cells must be accepted: 'integrate' and 'solve' for kets and density operators, "
     "'expm' for kets, LinearOperator / callable only with 'integrate'; everything else may reject or must be right",
 ]
+
+# progbar=True cases: keep tqdm from drawing (read when tqdm is first imported); quimb's own progress book-keeping
+# (continuous_progbar.cupdate) still runs
+os.environ.setdefault("TQDM_DISABLE", "1")
 
 TOL_EXACT = 1e-10
 TOL_INT = 1e-6
@@ -510,7 +515,7 @@ def s_init(method):
                 "compute": draw(st.sampled_from(["none", "none", "single2", "single3", "dict"])), "method": method}
         if method == "integrate":
             init["small"] = draw(st.booleans())
-        init["progbar"] = draw(st.sampled_from([False, False, False, True]))
+        init["progbar"] = draw(st.sampled_from([False] * 7 + [True]))
         if hrep.startswith("tuple"):
             init["method"] = draw(st.sampled_from(["solve", "integrate", "expm"]))
         return init
